@@ -307,8 +307,20 @@ func c15Check(c c15Case) (v vcase.Verdict) {
 }
 
 func c15Gen(t *rapid.T) c15Case {
+	st := genStatCase(t)
+	if vcase.OneIn(t, 6, "configaxis") {
+		// the whole file configuration as a column or row axis (the checks that compare with
+		// the reference pipeline keep .config in the table key; determinism needs no reference)
+		cfg := refproj.Expr{{Key: ".config"}}
+		st.Table = rapid.SampledFrom([]refproj.Expr{{}, {{Key: "goos"}}, {{Key: "pkg"}}, {{Key: "goos"}, {Key: "note"}}}).Draw(t, "cfgtable")
+		if rapid.Bool().Draw(t, "cfgascol") {
+			st.Col = cfg
+		} else {
+			st.Row = cfg
+		}
+	}
 	return c15Case{
-		Stat:            genStatCase(t),
+		Stat:            st,
 		Perm:            rapid.SliceOfN(rapid.IntRange(0, 1000), 12, 12).Draw(t, "perm"),
 		Reps:            vcase.Scale(6, 24),
 		OtherAlpha:      rapid.SampledFrom([]float64{0.5, 1, 0.001, 0.2}).Draw(t, "otheralpha"),
